@@ -162,228 +162,3 @@ theorem consistent_setFileMode (m : MemFs) (hc : Consistent m) (k : Key) (mode :
 
 end MemFs
 end AferoVerif
-
-namespace AferoVerif
-namespace MemFs
-
-/-- the parent directory of `k` exists -/
-def ParentDir (m : MemFs) (k : Key) : Prop :=
-  k ≠ rootKey ∧ parentKey k ≠ k ∧ ∃ p pd, m.lookup (parentKey k) = some p ∧ (m.obj p).memDir = some pd
-
-def Leaf (m : MemFs) (f : Nat) : Prop := (m.obj f).memDir = none ∨ (m.obj f).memDir = some []
-
-/-- the ordinary preconditions under which the operation keeps the index consistent (the
-    fragment proved here: no Rename, no RemoveAll, parents exist — so MkdirAll creates one level) -/
-def WFop (m : MemFs) : Op → Prop
-  | .create p => (∃ f, m.lookup (keyOfStr p) = some f ∧ (m.obj f).dir = false) ∨ (m.lookup (keyOfStr p) = none ∧ ParentDir m (keyOfStr p))
-  | .mkdir p _ | .mkdirAll p _ => (m.lookup (keyOfStr p)).isSome ∨ ParentDir m (keyOfStr p)
-  | .openFile p flag _ => (m.lookup (keyOfStr p)).isSome ∨ flag &&& O_CREATE = 0 ∨ ParentDir m (keyOfStr p)
-  | .remove p => m.lookup (keyOfStr p) = none ∨ (keyOfStr p ≠ rootKey ∧ ∃ f, m.lookup (keyOfStr p) = some f ∧ Leaf m f)
-  | .rename _ _ | .removeAll _ => False
-  | _ => True
-
-theorem consistent_create_new (m : MemFs) (hc : Consistent m) (k : Key) (hn : m.lookup k = none) (hp : ParentDir m k) :
-    Consistent (m.create k).1 := by
-  obtain ⟨hroot, hpk, p, pd, h1, h2⟩ := hp
-  rw [create_new_eq_attach m k p pd hn h1 h2 hpk (hc.inRange _ _ h1)]
-  exact consistent_attach m hc k _ p pd hn hroot hpk h1 h2 rfl (Or.inl rfl)
-
-theorem consistent_create (m : MemFs) (hc : Consistent m) (k : Key)
-    (h : (∃ f, m.lookup k = some f ∧ (m.obj f).dir = false) ∨ (m.lookup k = none ∧ ParentDir m k)) :
-    Consistent (m.create k).1 := by
-  rcases h with ⟨f, hl, hd⟩ | ⟨hn, hp⟩
-  · unfold create
-    simp only [hl, hd, Bool.false_eq_true, if_false]
-    exact consistent_setObj_meta m hc f _ rfl rfl
-  · exact consistent_create_new m hc k hn hp
-
-theorem consistent_mkdir (m : MemFs) (hc : Consistent m) (k : Key) (perm : Nat)
-    (h : (m.lookup k).isSome ∨ ParentDir m k) : Consistent (m.mkdir k perm).1 := by
-  unfold mkdir
-  simp only
-  cases hl : m.lookup k with
-  | some f => exact hc
-  | none =>
-    rcases h with h | ⟨hroot, hpk, p, pd, h1, h2⟩
-    · rw [hl] at h; cases h
-    · simp only
-      have hreg := alloc_insert_reg_eq_attach m k { (m.newDir k) with mode := modeDir ||| (perm &&& chmodBits) } p (perm &&& chmodBits)
-        ((({ (m.newDir k) with mode := modeDir ||| (perm &&& chmodBits) } : FData).name.segs.length) + 1)
-        pd rfl h1 h2 hpk (hc.inRange _ _ h1)
-      have hcons := consistent_attach m hc k { (m.newDir k) with mode := modeDir ||| (perm &&& chmodBits) } p pd hl hroot hpk h1 h2 rfl (Or.inr rfl)
-      have hfuel : MemFs.regFuel ({ objs := m.objs ++ [{ (m.newDir k) with mode := modeDir ||| (perm &&& chmodBits) }], data := alInsert m.data k m.objs.length, handles := m.handles, now := m.now } : MemFs) m.objs.length
-          = ({ (m.newDir k) with mode := modeDir ||| (perm &&& chmodBits) } : FData).name.segs.length + 1 + 1 := by
-        unfold MemFs.regFuel
-        rw [show (({ objs := m.objs ++ [{ (m.newDir k) with mode := modeDir ||| (perm &&& chmodBits) }], data := alInsert m.data k m.objs.length, handles := m.handles, now := m.now } : MemFs).obj m.objs.length)
-          = { (m.newDir k) with mode := modeDir ||| (perm &&& chmodBits) } from obj_alloc_new m _]
-      have hstate : registerWithParent
-          (MemFs.regFuel ({ objs := m.objs ++ [{ (m.newDir k) with mode := modeDir ||| (perm &&& chmodBits) }], data := alInsert m.data k m.objs.length, handles := m.handles, now := m.now } : MemFs) m.objs.length)
-          ({ objs := m.objs ++ [{ (m.newDir k) with mode := modeDir ||| (perm &&& chmodBits) }], data := alInsert m.data k m.objs.length, handles := m.handles, now := m.now } : MemFs)
-          m.objs.length (perm &&& chmodBits) = m.attach k { (m.newDir k) with mode := modeDir ||| (perm &&& chmodBits) } p := by
-        rw [hfuel]; exact hreg
-      have hfm := consistent_setFileMode _ hcons k ((perm &&& chmodBits) ||| modeDir)
-      show Consistent (match (registerWithParent _ _ _ _).setFileMode k ((perm &&& chmodBits) ||| modeDir) with
-        | (m4, none) => (m4, MRes.ok) | (m4, some e) => (m4, MRes.err e)).1
-      unfold alloc
-      simp only
-      rw [hstate]
-      split <;> rename_i heq <;> rw [heq] at hfm <;> exact hfm
-
-end MemFs
-end AferoVerif
-
-namespace AferoVerif
-namespace MemFs
-
-theorem consistent_fileIO (m : MemFs) (hc : Consistent m) (hi : Nat) (f : Bytes → Handle → Bytes × Handle × FOut) (t : Bool) :
-    Consistent (m.fileIO hi f t).1 := by
-  unfold fileIO
-  split
-  · exact hc
-  · refine consistent_handles _ (consistent_setObj_meta m hc _ _ ?_ ?_) _ <;> rfl
-
-theorem consistent_openFile (m : MemFs) (hc : Consistent m) (k : Key) (flag perm : Nat)
-    (h : (m.lookup k).isSome ∨ flag &&& O_CREATE = 0 ∨ ParentDir m k) : Consistent (m.openFile k flag perm).1 := by
-  unfold openFile
-  simp only
-  split
-  · exact hc
-  · cases hl : m.lookup k with
-    | some f =>
-      simp only
-      by_cases hT : (flag &&& O_TRUNC > 0 ∧ flag &&& (O_RDWR ||| O_WRONLY) > 0)
-      · simp only [hT, and_self, if_true, Bool.false_eq_true, if_false]
-        refine consistent_handles _ (consistent_setObj_meta m hc _ _ ?_ ?_) _ <;> rfl
-      · simp only [hT, if_false, Bool.false_eq_true]
-        exact consistent_handles _ hc _
-    | none =>
-      simp only
-      by_cases hC : flag &&& O_CREATE > 0
-      · simp only [hC, if_true]
-        have hp : ParentDir m k := by
-          rcases h with h | h | h
-          · rw [hl] at h; cases h
-          · rw [h] at hC; exact absurd hC (Nat.lt_irrefl 0)
-          · exact h
-        have hcr := consistent_create_new m hc k hl hp
-        generalize m.create k = C at hcr
-        obtain ⟨m1, f⟩ := C
-        simp only at hcr ⊢
-        by_cases hT : (flag &&& O_TRUNC > 0 ∧ flag &&& (O_RDWR ||| O_WRONLY) > 0)
-        · simp only [hT, and_self, if_true]
-          refine consistent_setFileMode _ (consistent_handles _ (consistent_setObj_meta m1 hcr _ _ ?_ ?_) _) _ _ <;> rfl
-        · simp only [hT, if_false]
-          exact consistent_setFileMode _ (consistent_handles _ hcr _) _ _
-      · simp only [hC, if_false]
-        exact hc
-
-theorem consistent_remove (m : MemFs) (hc : Consistent m) (k : Key)
-    (h : m.lookup k = none ∨ (k ≠ rootKey ∧ ∃ f, m.lookup k = some f ∧ Leaf m f)) : Consistent (m.remove k).1 := by
-  rcases h with hn | ⟨hroot, f, hl, hleaf⟩
-  · unfold remove; simp only [hn]; exact hc
-  · obtain ⟨p, pd, h1, h2, _⟩ := hc.hasParent k f hl hroot
-    rw [remove_leaf_eq_detach m hc k f p hl h1]
-    exact consistent_detach m hc k f p pd hroot hl hleaf h1 h2
-
-/-- **the index invariant is preserved by every operation of the fragment**: Create, Mkdir,
-    MkdirAll and creating OpenFile below an existing directory, Remove of a file or an empty
-    directory, every metadata call, every open, every method of every handle. -/
-theorem consistent_step_wf (m : MemFs) (op : Op) (hc : Consistent m) (hw : WFop m op) : Consistent (m.step op).1 := by
-  cases op with
-  | create p =>
-    simp only [step]
-    have := consistent_create m hc (keyOfStr p) hw
-    generalize m.create (keyOfStr p) = C at this
-    obtain ⟨m1, f⟩ := C
-    exact consistent_handles _ this _
-  | mkdir p perm => exact consistent_mkdir m hc _ perm hw
-  | mkdirAll p perm =>
-    have hmk := consistent_mkdir m hc (keyOfStr p) perm hw
-    simp only [step]
-    unfold mkdirAll
-    split
-    · rename_i m' heq; rw [heq] at hmk; exact hmk
-    · exact hmk
-  | open_ p =>
-    simp only [step, openRO]
-    split
-    · exact hc
-    · exact consistent_handles _ hc _
-  | openFile p flag perm => exact consistent_openFile m hc _ flag perm hw
-  | remove p => exact consistent_remove m hc _ hw
-  | removeAll p => exact absurd hw id
-  | rename a b => exact absurd hw id
-  | stat p => exact hc
-  | chmod p mode =>
-    simp only [step]
-    unfold chmod
-    simp only
-    split
-    · exact hc
-    · rename_i f _
-      have := consistent_setFileMode m hc (keyOfStr p) (((m.obj f).mode - ((m.obj f).mode &&& chmodBits)) ||| (mode &&& chmodBits))
-      split <;> rename_i heq <;> rw [heq] at this <;> exact this
-  | chown p u g =>
-    simp only [step]; unfold chown; split
-    · exact hc
-    · refine consistent_setObj_meta m hc _ _ ?_ ?_ <;> rfl
-  | chtimes p t =>
-    simp only [step]; unfold chtimes; split
-    · exact hc
-    · refine consistent_setObj_meta m hc _ _ ?_ ?_ <;> rfl
-  | hRead hi n => exact consistent_fileIO m hc hi _ _
-  | hReadAt hi n off => exact consistent_fileIO m hc hi _ _
-  | hWrite hi b => exact consistent_fileIO m hc hi _ _
-  | hWriteAt hi b off => exact consistent_fileIO m hc hi _ _
-  | hTrunc hi n => exact consistent_fileIO m hc hi _ _
-  | hSeek hi off wh => exact consistent_fileIO m hc hi _ _
-  | hClose hi =>
-    simp only [step]; unfold hClose; split
-    · exact hc
-    · simp only
-      split
-      · exact consistent_handles _ hc _
-      · refine consistent_handles _ (consistent_setObj_meta m hc _ _ ?_ ?_) _ <;> rfl
-  | hName hi => exact hc
-  | hStat hi => exact hc
-  | hSync hi => exact hc
-  | hReaddir hi n =>
-    simp only [step]
-    have : Consistent (m.readdir hi n).1 := by
-      unfold readdir; split
-      · exact hc
-      · simp only
-        split
-        · exact hc
-        · exact consistent_handles _ hc _
-    generalize m.readdir hi n = R at this
-    obtain ⟨m', fs, e⟩ := R
-    exact this
-  | hReaddirnames hi n =>
-    simp only [step]
-    have : Consistent (m.readdir hi n).1 := by
-      unfold readdir; split
-      · exact hc
-      · simp only
-        split
-        · exact hc
-        · exact consistent_handles _ hc _
-    generalize m.readdir hi n = R at this
-    obtain ⟨m', fs, e⟩ := R
-    exact this
-
-/-- a program all of whose operations meet the fragment's preconditions in the state they run in -/
-def WFrun (m : MemFs) : List Op → Prop
-  | [] => True
-  | op :: ops => WFop m op ∧ WFrun (m.step op).1 ops
-
-/-- **the tree is self-consistent after every well-formed program of the fragment**: every existing
-    path is listed by its parent, every listed entry exists, every existing path has an existing
-    parent directory, names lead to allocated objects carrying their own name -/
-theorem consistent_run_wf (ops : List Op) : ∀ m, Consistent m → WFrun m ops → Consistent (run m ops) := by
-  induction ops with
-  | nil => intro m h _; exact h
-  | cons op ops ih => intro m h hw; exact ih _ (consistent_step_wf m op h hw.1) hw.2
-
-end MemFs
-end AferoVerif
